@@ -335,7 +335,7 @@ def main(prop, tier='quick', seed=0, replay=None, only=None, jobs=None):
                 if rec['verdict'] == 'counterexample':
                     bad, detail = h.extra_replay(rec)
                     if bad:
-                        extra_cex.append(dict(cond=rec['cond'], args=rec['args'], got=detail, exp='same positions as the key, ascending step', source='solver-e3', reproduced=True))
+                        extra_cex.append(dict(cond=rec['cond'], args=rec['args'], got=detail, exp=rec.get('expect', 'same positions as the key, ascending step'), source='solver-e3', reproduced=True))
                     else:
                         r['verdict'] = 'inconclusive'
                         r['msg'] = 'spurious counterexample (does not reproduce on the real function): ' + r['msg']
